@@ -58,6 +58,10 @@ type c03case struct {
 	n, m int
 	perm []int // order in which the n upstream tasks are answered
 	acts int   // consecutive activations (loop iterations)
+	// dup: PARALLEL EDGES into the join — 1: the first upstream task has two outgoing flows, both into the join (its token
+	// arrives twice, over two different incoming flows from one source node); 2: two further flows lead straight from the
+	// fork to the join (empty branches). The join has n+1 / n+2 incoming flows and waits for a token on each.
+	dup int
 }
 
 func perms(n int) [][]int {
@@ -85,7 +89,10 @@ func c03cases(tier string) []c03case {
 					if tier != "thorough" && n == 4 && k%3 != acts%3 {
 						continue
 					}
-					cs = append(cs, c03case{n, m, p, acts})
+					cs = append(cs, c03case{n, m, p, acts, 0})
+					if k == 0 && n <= 3 && m <= 2 && acts <= 2 {
+						cs = append(cs, c03case{n, m, p, acts, 1}, c03case{n, m, p, acts, 2})
+					}
 				}
 			}
 		}
@@ -132,6 +139,13 @@ func c03run(out *rec.Out, c c03case, rng *rec.Rng, stats map[string]int) {
 		u := g.Add("task", fmt.Sprintf("U%d", i), "")
 		g.Connect(fork, u, pc())
 		g.Connect(u, join, nil)
+		if c.dup == 1 && i == 0 {
+			g.Connect(u, join, nil)
+		}
+	}
+	if c.dup == 2 {
+		g.Connect(fork, join, pc())
+		g.Connect(fork, join, pc())
 	}
 	for j := 0; j < c.m; j++ {
 		d := g.Add("task", fmt.Sprintf("D%d", j), "")
@@ -144,7 +158,10 @@ func c03run(out *rec.Out, c c03case, rng *rec.Rng, stats map[string]int) {
 	loop := g.Loop("", body, &eng.Cond{Op: "lt", Var: "c1", K: c.acts})
 	g.Wrap(loop)
 
-	out.Begin("c03", c.n, c.m, c.acts)
+	out.Begin("c03", c.n, c.m, c.acts, c.dup)
+	if c.dup > 0 {
+		stats["joins_with_parallel_edges"]++
+	}
 	defer out.End()
 	in, defs, err := eng.Start(g.XML(), map[string]any{"c1": 0, "pf": 0})
 	if err != nil {
